@@ -508,6 +508,36 @@ theorem execWOps_good (hs : Safe own beh) (fuel : Nat) : ∀ (ops : List WOp) (w
           rw [hc2] at this
           exact fun hnd hal => this (fun hm => hnd (List.mem_cons_of_mem _ hm)) hal
 
+/-- `RootIntact`, executable -/
+def rootIntactB (w : WSt) : Bool :=
+  match w.root with
+  | none => true
+  | some r => r.keys.all fun k => !(w.st.log.contains (Ev.unbindReq k))
+
+theorem rootIntact_of_B {w : WSt} (h : rootIntactB w = true) : RootIntact w := by
+  intro r hr k hk hreq
+  simp only [rootIntactB, hr, List.all_eq_true, Bool.not_eq_true', List.contains_eq_mem, decide_eq_false_iff_not] at h
+  exact h k hk hreq
+
+/-- `Intact`, executable -/
+def intactB (fuel : Nat) : List WOp → WSt → Bool
+  | [], _ => true
+  | op :: rest, w =>
+    rootIntactB w && match execW Cfg.repaired own beh fuel op w with
+      | .ok w' => intactB fuel rest w'
+      | _ => true
+
+theorem intact_of_B (fuel : Nat) : ∀ (ops : List WOp) (w : WSt), intactB own beh fuel ops w = true → Intact own beh fuel ops w := by
+  intro ops
+  induction ops with
+  | nil => intro _ _; trivial
+  | cons op rest ih =>
+    intro w h
+    simp only [intactB, Bool.and_eq_true] at h
+    refine ⟨rootIntact_of_B h.1, fun w' hw' => ?_⟩
+    rw [hw'] at h
+    exact ih w' h.2
+
 end
 
 end Tickit.Bindings
